@@ -117,4 +117,4 @@ package slip
 // default forms are shared by every later call).
 //@ func slip.(*Lambda).Call
 //@   property C04 C08
-//@   no-store Default Name Args
+//@   no-store slip.DocArg.Default slip.DocArg.Name slip.FuncDoc.Args
